@@ -8,4 +8,20 @@ CLAIMS = {
         "note": "Trusted: the sorted-map model (DESIGN A.6), pebble's strict MemFS as the durability model, rapid as PRNG/shrinker. limit=0 is unspecified and not exercised.",
     },
 }
+CLAIMS["C10"] = {
+    "engine": "seqsim", "level": "exploration", "design_ref": "4/C10, 5, A.4",
+    "technique": "deterministic simulation (weak fit): seeded update/lost-batch/reopen histories at the node-store seam against a naive LIP-0039 reference root; proof tampering as the fault",
+    "text": "Seeded exploration of update/delete batch histories of the real sparse Merkle trie with lost write batches and reopen at the storage seam; after every step the root is compared with a "
+            "naive recursive LIP-0039 root of the model map, the same map is rebuilt in another order, generated proofs must verify and agree with the map, and single-field tamperings of proofs that still verify "
+            "must not change any claim. Proof soundness for a fixed tree is a pure function and only rides along (DESIGN 5).",
+    "note": "Trusted: refmodel.SMTRoot (DESIGN A.4). Values are 32-byte hashes or empty. Sampling only.",
+}
+CLAIMS["C11"] = {
+    "engine": "seqsim", "level": "exploration", "design_ref": "4/C11, 5, A.5",
+    "technique": "deterministic simulation (weak fit): seeded append/update/proof/witness/reload histories on one long-lived tree against a naive LIP-0031 reference root",
+    "text": "Seeded exploration of histories on one long-lived regular Merkle tree (appends around powers of two, in-place updates, proofs, right witnesses, predicted appends, reload from the store), "
+            "root and size compared with a naive LIP-0031 root after every mutation, proofs checked for completeness and for failing on other data/root. The history clauses fit the family through the storage seam; "
+            "per-tree proof correctness only rides along (DESIGN 5).",
+    "note": "Trusted: refmodel.RMTRoot (DESIGN A.5). Unique leaves. Sampling only.",
+}
 PENDING = {}
